@@ -330,6 +330,53 @@ def gen_case(rng, proto, sess, density=None, nops=None):
     return g.L
 
 
+def gen_resize_case(rng, proto, sess):
+    """directed: buffer resizes at the boundary -- every buffer option of the protocol walked through 0 / 1 / 2 / 0 ...
+    while the peer connection is idle, busy (a send in flight at the transport), and holding queued messages, each
+    resize followed by a poll and by the non-blocking operation the descriptor advertises (a resize recomputes the
+    descriptor in pairX_set_*_buf_len, push0_set_send_buf_len, nni_msgq_resize, ...)"""
+    g = Gen(rng, proto, sess)
+    d = g.d
+    E = g.emit
+    E("open s0 %s" % proto)
+    opts = buf_opts(proto)
+    if not opts:
+        return None
+    for _ in range(rng.choice([1, 1, 2])):
+        E("conn s0 %d" % d["peer"]); g.npipes += 1
+    E("poll")
+
+    def probe():
+        for x in rng.sample(["r", "w"], 2):
+            if x == "r" and d["recv"] and rng.random() < 0.6:
+                E("recvnb s0")
+            elif x == "w" and d["send"] and rng.random() < 0.8:
+                h, b = g.send_args(valid=True)
+                E("sendnb s0 %s %s" % (h, b))
+
+    for phase in range(rng.choice([2, 3, 4])):
+        for v in rng.choice([[0, 1, 0], [0, 2, 1, 0], [1, 0, 2], [2, 0], [0]]):
+            E("setopt s0 %s int %d" % (rng.choice(opts), v))
+            E("poll")
+            probe()
+        r = rng.random()
+        ops = g.open_pipes()
+        if r < 0.35 and ops and d["recv"]:
+            for _ in range(rng.choice([1, 2, 3])):
+                E("inject p%d %s" % (rng.choice(ops), g.wire() or "-"))
+        elif r < 0.75 and g.npipes:
+            for _ in range(rng.choice([1, 2])):
+                E("sent p%d" % rng.randrange(g.npipes))
+        elif d["send"]:
+            h, b = g.send_args(valid=True)
+            E("send s0 %s %s %s" % (g.aio(), h, b))
+    for _ in range(3):
+        for q in range(g.npipes):
+            E("sent p%d" % q)
+    E("poll")
+    return g.L
+
+
 # ---------------------------------------------------------------- the oracle (implementation's observations only)
 class Stats:
     def __init__(self):
@@ -558,6 +605,13 @@ def run(tier, seed, replay=None):
             by_proto.setdefault(pr, [])
             for i in range(n):
                 by_proto[pr].append(gen_case(r2, pr, sess))
+            # directed resize-boundary scripts (stateless protocols only: on REQ/REP/SURVEY a probe is a protocol step)
+            if pr not in ("req0", "rep0", "surveyor0", "respondent0"):
+                r3 = random.Random(rng.randrange(1 << 30))
+                for i in range((6 if tier == "quick" else 300) // (3 if pr in ALIAS else 1)):
+                    c = gen_resize_case(r3, pr, sess)
+                    if c:
+                        by_proto[pr].append(c)
         sess.close()
     phases["generation (model-guided)"] = round(_t.time() - t0, 1)
     # batches, run on at most 6 driver pairs at a time
